@@ -332,6 +332,36 @@ func main() {
 	}
 	addBool("del_forward_returns_early", early, "deleteKeys returns from inside the per-member loop with the forwarded command's status")
 
+	// ---- structural facts: pub/sub (C14)
+	psGo := parse("internal/pubsub/pubsub.go")
+	pub := funcDecl(psGo, "PubSub", "Publish")
+	countInside := false
+	if pub != nil {
+		ast.Inspect(pub.Body, func(n ast.Node) bool {
+			if ifs, ok := n.(*ast.IfStmt); ok && strings.Contains(src(ifs.Cond), "match.Match") {
+				countInside = strings.Contains(src(ifs.Body), "sent++")
+			}
+			return true
+		})
+		// and no `sent++` in the pattern callback outside that if
+		ast.Inspect(pub.Body, func(n ast.Node) bool {
+			if fl, ok := n.(*ast.FuncLit); ok && strings.Contains(src(fl), "match.Match") {
+				for _, st := range fl.Body.List {
+					if inc, isInc := st.(*ast.IncDecStmt); isInc && strings.Contains(src(inc), "sent") {
+						countInside = false
+					}
+				}
+			}
+			return true
+		})
+	}
+	addBool("publish_counts_only_matches", countInside, "Publish increments the receiver count inside `if match.Match(...)` only")
+	sub := funcDecl(psGo, "PubSub", "subscribe")
+	addBool("subscribe_is_idempotent", sub != nil && strings.Contains(src(sub), "ient.pattern == pattern && ient.channel == channel"),
+		"subscribe looks for an existing (pattern, channel) entry of the connection before adding one")
+	ns := funcDecl(psGo, "PubSub", "Numsub")
+	addBool("numsub_excludes_patterns", ns != nil && strings.Contains(src(ns), "!ient.pattern"), "Numsub skips pattern entries")
+
 	// ---- write
 	sort.SliceStable(facts, func(i, j int) bool { return false })
 	var sb strings.Builder
